@@ -2,7 +2,7 @@
 import json, os, sys, time, hashlib, re
 
 VERIF = os.path.dirname(os.path.dirname(os.path.abspath(__file__)))
-EVIDENCE = os.path.join(VERIF, 'evidence')
+EVIDENCE = os.environ.get('VERIF_EVIDENCE') or os.path.join(VERIF, 'evidence')
 KNOWN = os.path.join(VERIF, 'known_findings.jsonl')
 FLOORS = os.path.join(VERIF, 'analysis', 'floors.json')
 
